@@ -93,7 +93,7 @@ def model_float(model, name, default):
 
 
 def save(ctx, name, payload):
-    d = os.path.join(core.VERIF, 'replays', ctx.pid)
+    d = os.path.join(core.REPLAY_DIR, ctx.pid)
     os.makedirs(d, exist_ok=True)
     path = os.path.join(d, re.sub(r'[^\w.-]', '_', name) + '.json')
     with open(path, 'w') as fh:
@@ -214,37 +214,41 @@ def deviation(got, exp):
 
 
 # ----------------------------------------------------------------------------------------------- wrappers (geometric / harmonic)
-def replay_wrapper(ctx, which, kind):
+def replay_wrapper(ctx, which, kind, model=None):
     import math
     drv = Driver.get(ctx)
-    # log-space / reciprocal-space states of a pinned positive sample
+    # log-space / reciprocal-space states: the solver model's state (if any), then a pinned positive sample, then large magnitudes
     data = [10.6, 6.6, 26.7, 0.4, 5.7, 0.3, 1.1, 5.0, 8.4, 1.4, 15.1, 0.3, 20.4]
-    tr = [math.log(x) for x in data] if which == 'geometric' else [1.0 / x for x in data]
-    n = len(tr)
-    s, q = sum(tr), sum(x * x for x in tr)
-    if which == 'harmonic':
-        # keep the reciprocal-space interval strictly positive
-        pass
-    for k, L in [(kind, 0.9), (kind, 0.6), (0, 0.9), (1, 0.9), (2, 0.9)]:
-        cmd = '%s_ci_mean f64 %s %s %s %s %d %d %s' % (which, bits(s), bits(0.0), bits(q), bits(0.0), n, k, bits(L))
-        got = parse_result(drv.run([cmd])[0])
-        fk = k if which == 'geometric' else {0: 0, 1: 2, 2: 1}[k]
-        base = spec_arith(drv, s, 0.0, q, 0.0, n, fk, L)
-        if base is None or base[0] == 'err':
-            continue
-        if which == 'geometric':
-            exp = (KIND[k], [math.exp(b) for b in base[1]], base[2])
-        else:
-            bs = base[1]
-            if any(b <= 0 for b in bs):
+    states = []
+    if model:
+        states.append(arith_inputs(model))
+    for scale in (1.0, 1e17, 1e-300):
+        tr = [math.log(x * scale) for x in data] if which == 'geometric' else [1.0 / (x * scale) for x in data]
+        states.append((sum(tr), 0.0, sum(x * x for x in tr), 0.0, len(tr)))
+    for (s, sc, q, qc, n) in states:
+        for k, L in [(kind, 0.9), (kind, 0.6), (0, 0.9), (1, 0.9), (2, 0.9), (0, 0.6)]:
+            cmd = '%s_ci_mean f64 %s %s %s %s %d %d %s' % (which, bits(s), bits(sc), bits(q), bits(qc), n, k, bits(L))
+            got = parse_result(drv.run([cmd])[0])
+            fk = k if which == 'geometric' else {0: 0, 1: 2, 2: 1}[k]
+            base = spec_arith(drv, s, sc, q, qc, n, fk, L)
+            if base is None or base[0] == 'err':
                 continue
-            exp = (KIND[k], [1.0 / bs[1], 1.0 / bs[0]] if k == 0 else [1.0 / bs[0]], base[2])
-        info = dict(exp[2])
-        info['span'] = abs(exp[1][-1] - exp[1][0]) / 2 if len(exp[1]) == 2 else abs(exp[1][0]) * 0.1
-        dev = deviation(got, (exp[0], exp[1], info))
-        if dev:
-            path = save(ctx, 'C05_%s_%s' % (which, KIND[k]), {'property': ctx.pid, 'command': cmd, 'native': got, 'reference': exp[:2], 'deviation': dev})
-            return True, path, dev
+            if which == 'geometric':
+                try:
+                    exp = (KIND[k], [math.exp(b) for b in base[1]], base[2])
+                except OverflowError:
+                    continue
+            else:
+                bs = base[1]
+                if any(b <= 0 for b in bs):
+                    continue
+                exp = (KIND[k], [1.0 / bs[1], 1.0 / bs[0]] if k == 0 else [1.0 / bs[0]], base[2])
+            info = dict(exp[2])
+            info['span'] = abs(exp[1][-1] - exp[1][0]) / 2 if len(exp[1]) == 2 else abs(exp[1][0]) * 0.1
+            dev = deviation(got, (exp[0], exp[1], info))
+            if dev:
+                path = save(ctx, 'C05_%s_%s' % (which, KIND[k]), {'property': ctx.pid, 'command': cmd, 'native': got, 'reference': exp[:2], 'deviation': dev})
+                return True, path, dev
     return False, None, 'native results agree with the reference'
 
 
@@ -280,7 +284,7 @@ def replay_proportion(ctx, model, what, fam='wilson'):
     cases = []
     if lo_dom <= k <= n - lo_dom:
         cases.append((n, k))
-    cases += [(400, 120), (500, 421), (10000, 89), (36037, 10), (20, 10)]
+    cases += [(400, 120), (500, 421), (10000, 89), (36037, 10), (20, 10), (100000, 3), (250000, 2), (300, 3), (40, 37), (1000, 997)]
     cmdname = 'wilson' if fam == 'wilson' else 'z_normal'
     spec = spec_wilson if fam == 'wilson' else spec_wald
     for (nn, kk) in cases:
